@@ -165,6 +165,7 @@ rej:
 		verifSignEvent(2, nonce, &z, &w0, &h, 0)
 		goto rej
 	}
+	verifSignEvent(12, nonce, &z, &w0, &h, 0)
 
 	/* Compute hints for w1 */
 	polyVecKPointWisePolyMontgomery(&h, &cp, &t0)
@@ -174,6 +175,7 @@ rej:
 		verifSignEvent(3, nonce, &z, &w0, &h, 0)
 		goto rej
 	}
+	verifSignEvent(13, nonce, &z, &w0, &h, 0)
 
 	polyVecKAdd(&w0, &w0, &h)
 	n := polyVecKMakeHint(&h, &w0, &w1)
